@@ -152,18 +152,17 @@ def _system_contract(n, stop, finite):
             Af, Bf, Cf, Df = abcd(v, 1, stop, include_last_refraction=False)
             c.require(Af != 0)
             c.ensure_eq('C04.EPL', c.val(px.EPL()), n0 * Bf / Af)
-        if stop == n - 2:
-            c.ensure_eq('C04.XPL', c.val(px.XPL()), v['z'][n - 2] - v['z'][n - 1])
-        else:
-            # rear group: from the stop (after its refraction) to the last surface (with its refraction)
-            Ar, Br, Cr, Dr = 1, 0, 0, 1
-            for k in range(stop + 1, n):
-                t = (v['z'][k] - v['z'][k - 1]) / v['n'][k - 1]
-                Ar, Br = Ar + t * Cr, Br + t * Dr
-                phi = (v['n'][k] - v['n'][k - 1]) / v['R'][k]
-                Cr, Dr = Cr - phi * Ar, Dr - phi * Br
-            c.require(Dr != 0)
-            c.ensure_eq('C04.XPL', c.val(px.XPL()), -nl * Br / Dr)
+        # rear group: from the stop (after its refraction) to the last surface (with its refraction) -- the same matrix statement for
+        # every stop position, the stop on the last surface in front of the image included (the library used to return the stop's
+        # vertex distance there, ignoring an index step at the last surface: fixed in /repo, see known_findings.json -> fixed)
+        Ar, Br, Cr, Dr = 1, 0, 0, 1
+        for k in range(stop + 1, n):
+            t = (v['z'][k] - v['z'][k - 1]) / v['n'][k - 1]
+            Ar, Br = Ar + t * Cr, Br + t * Dr
+            phi = (v['n'][k] - v['n'][k - 1]) / v['R'][k]
+            Cr, Dr = Cr - phi * Ar, Dr - phi * Br
+        c.require(Dr != 0)
+        c.ensure_eq('C04.XPL', c.val(px.XPL()), -nl * Br / Dr)
     return sysq
 
 
